@@ -17,7 +17,7 @@ if nth is None:
 else:
     parts = src.split(old)
     out = old.join(parts[:nth + 1]) + new + old.join(parts[nth + 1:])
-d = os.path.join(V, "zv", "mutants", prop)
+d = os.path.join(V, "zv", os.environ.get("ZV_MUT_KIND", "mutants"), prop)
 os.makedirs(d, exist_ok=True)
 diff = difflib.unified_diff(src.splitlines(True), out.splitlines(True), "a/" + rel, "b/" + rel)
 open(os.path.join(d, name + ".patch"), "w").write("".join(diff))
